@@ -9,10 +9,12 @@
      fprox e s x  f.proximal(s)(x)                                  -- the .proximal bindings + factories
      fweights e   the weights w of the functional's own space: <x,y> = sum w_i x_i y_i
    wf e: weights positive; LScal scalar > 0; RScal scalar <> 0; QPert coefficient >= 0; translation /
-   linear term of the right length; leaves among L1Norm, L2NormSquared, ConstantFunctional,
-   IndicatorBox/Nonnegativity, IndicatorZero, IndicatorLpUnitBall(inf), Huber(gamma >= 0).          *)
+   linear term of the right length; leaves among L1Norm, L2Norm, L2NormSquared, ConstantFunctional,
+   IndicatorBox/Nonnegativity, IndicatorZero, IndicatorLpUnitBall(inf), IndicatorLpUnitBall(2),
+   Huber(gamma >= 0).   (LpNorm(inf), IndicatorLpUnitBall(1), IndicatorSimplex, the group norms and KL are
+   modelled and tied by the correspondence; see the partial theorems at the end.)                   *)
 From Coq Require Import Reals Lra List Bool.
-From Verif Require Import Base.Num Base.Vec Base.VecR C07.Model C07.Convex C07.Leaves C07.LeafThms C07.Rules C07.Proofs.
+From Verif Require Import Base.Num Base.Vec Base.VecR C07.Model C07.Convex C07.Leaves C07.LeafThms C07.Rules C07.L2 C07.Proofs.
 Import ListNotations.
 Local Open Scope R_scope.
 
@@ -133,6 +135,36 @@ Theorem variational_form_implies_minimiser : forall n (f : list R -> option R) (
   length m = n -> length x = n -> allpos m -> is_proxs n f m x p -> is_proxm n f m x p.
 Proof. exact is_proxs_proxm. Qed.
 Print Assumptions rule_quadratic_perturbation_sound.
+
+(* Moreau rule = proximal_convex_conj:  x - sigma * prox_{f, 1/sigma}(x / sigma)  is the proximal point of the
+   convex conjugate fs of f (conjugate w.r.t. the weighted inner product, as a least upper bound in the
+   extended reals), for an ARBITRARY f -- no convexity or lower semicontinuity assumption is needed in the
+   variational form. *)
+Theorem rule_convex_conj_sound : forall n (f fs : list R -> option R) (w : list R) (sigma : R) (x q : list R),
+  0 < sigma -> allpos w -> length w = n -> length x = n ->
+  (forall y, length y = n ->
+     (forall z v, length z = n -> f z = Some v -> ele (Some (wdot w y z - v)) (fs y)) /\
+     (forall M, (forall z v, length z = n -> f z = Some v -> wdot w y z - v <= M) -> ele (fs y) (Some M))) ->
+  is_proxs n f (metric w (repeat (1 / sigma) n)) (vscal (1 / sigma) x) q ->
+  is_proxs n fs (metric w (repeat sigma n)) x (vsub x (vscal sigma q)).
+Proof. exact rule_moreau. Qed.
+Print Assumptions rule_convex_conj_sound.
+
+(* the pair used by IndicatorLpUnitBall(2).proximal = proximal_convex_conj(proximal_l2): the conjugate of the
+   norm of the weighted space is the indicator of its unit ball (weighted Cauchy-Schwarz) *)
+Theorem norm_ball_conjugate_pair : forall n (w : list R), allpos w -> length w = n ->
+  is_conj n w (leaf_val FL2 w) (leaf_val FBall2 w).
+Proof. exact l2_ball_conj. Qed.
+Theorem weighted_cauchy_schwarz : forall n (w a b : list R), allpos w -> length w = n -> length a = n -> length b = n ->
+  wdot w a b <= sqrt (wnormsq w a) * sqrt (wnormsq w b).
+Proof. exact cauchy_schwarz. Qed.
+
+(* proximal_l2(space, lam, g): block soft threshold in the norm of the weighted space *)
+Theorem factory_l2 : forall lam n (g w : list R) (s : R) (x : list R), 0 < lam -> 0 < s ->
+  length g = n -> length w = n -> length x = n -> allpos w ->
+  is_proxs n (F_l2 lam g w) (metric w (repeat s n)) x (prox_l2 w lam (Some g) s x).
+Proof. exact l2_factory_prox. Qed.
+Print Assumptions factory_l2.
 
 (* The factories called directly with lam and g (weighted space, per-point steps where documented):
    proximal_l1(space, lam, g) is the proximal of lam*||. - g||_1, proximal_l2_squared of lam*||. - g||^2,
